@@ -55,7 +55,8 @@ def capture_episode(cfg, augment=False, conn_dist=None, window=1):
     jax.vmap = spy
     try:
         if augment:
-            g0 = art.generate_graphs({"a": BaseNode(name="a", rate=ra, delay=0.0, delay_dist=StaticDist(rng=jax.random.PRNGKey(0), dist=VDist("comp_a")))}, cfg["ts_max"], num_episodes=1)
+            ex = cfg.get("existing", "a")
+            g0 = art.generate_graphs({ex: BaseNode(name=ex, rate=ra if ex == "a" else rb, delay=0.0, delay_dist=StaticDist(rng=jax.random.PRNGKey(0), dist=VDist(f"comp_{ex}")))}, cfg["ts_max"], num_episodes=1)
             captured.pop("fn", None)
             art.augment_graphs(g0, nodes, rng=jax.random.PRNGKey(1))
             ex_graph = jax.tree_util.tree_map(lambda x: x[0], g0)
@@ -107,7 +108,8 @@ def worker(cfg, tier):
         cell = episode.__closure__[episode.__code__.co_freevars.index("ts_max")].cell_contents
         H_all = Fraction(float(np.float32(np.max(cell))))
         tsm = tsmax_in.item()
-        va = g_in.vertices["a"]
+        exn = cfg.get("existing", "a")
+        va = g_in.vertices[exn]
         n = va.seq.shape[0]
         hmax = z3.RealVal(0)
         for i in range(n):
@@ -139,7 +141,7 @@ def worker(cfg, tier):
                 conj.append(vx.ts_start.v[i + 1] - vx.ts_start.v[i] >= pr)  # spaced at least one period
         return z3.And(*conj)
 
-    gen_nodes = ["b"] if augment else ["a", "b"]
+    gen_nodes = [{"a": "b", "b": "a"}[cfg.get("existing", "a")]] if augment else ["a", "b"]
     for name in gen_nodes:
         rate = ra if name == "a" else rb
         v, m, s = smt.check(pre, node_goal(name, rate, nodes[name].phase), tmo)
@@ -204,7 +206,7 @@ def worker(cfg, tier):
         o.replayed = _replay_reorder(cfg)
     obs.append(o)
     if augment:
-        eqs = jx.tree_equal(alg, out.vertices["a"], g_in.vertices["a"])
+        eqs = jx.tree_equal(alg, out.vertices[exn], g_in.vertices[exn])
         obs.append(Ob("augment: pre-existing vertices are returned unchanged; exactly the missing node and connection are added",
                       "unsat" if (eqs is True and sorted(out.vertices.keys()) == ["a", "b"] and sorted(out.edges.keys()) == [("a", "b")]) else smt.check(pre, eqs if not isinstance(eqs, bool) else z3.BoolVal(eqs), 30)[0],
                       0, cfg, trivial=eqs is True, key="augment", what="augment_graphs alters an existing vertex/edge or adds the wrong keys", replayed=None))
@@ -270,12 +272,13 @@ def _replay_augment(cfg, m, calls, episode, g_in, ex_graph, tsmax_in, edges=None
         fixtures.ORACLE_RETURNS.clear()
         f64 = lambda t: jax.tree_util.tree_map(lambda x: np.asarray(x, np.float64), t)
         va, vb, e = f64(g.vertices["a"]), f64(g.vertices["b"]), f64(g.edges[("a", "b")])
-        rb = cfg["rates"][1]
         if edges is None:
-            for i in range(len(vb.seq)):
-                if vb.ts_end[i] < vb.ts_start[i] or (vb.seq[i] == -1) != (vb.ts_end[i] > h):
+            gen_b = cfg.get("existing", "a") == "a"
+            vg, rg = (vb, cfg["rates"][1]) if gen_b else (va, cfg["rates"][0])
+            for i in range(len(vg.seq)):
+                if vg.ts_end[i] < vg.ts_start[i] or (vg.seq[i] == -1) != (vg.ts_end[i] > h):
                     return True
-                if i + 1 < len(vb.seq) and abs(vb.ts_start[i + 1] - max(vb.ts_end[i], vb.ts_start[i] + float(np.float32(1.0 / rb)))) > 1e-5:
+                if i + 1 < len(vg.seq) and abs(vg.ts_start[i + 1] - max(vg.ts_end[i], vg.ts_start[i] + float(np.float32(1.0 / rg)))) > 1e-5:
                     return True
             return False
         fifo_search, in_order_only = edges
@@ -372,6 +375,11 @@ def configs(tier):
         for skip in (False, True):
             out.append(dict(rates=rates, skip=skip, ts_max=1.0, phase_b=0.125, unroll=6))
     out.append(dict(rates=(2, 3), skip=False, ts_max=1.0, phase_b=0.125, unroll=6, augment=True))
+    # the generated node *sends to* a pre-existing receiver (arbitrary well-formed vertex set, possibly padded)
+    out.append(dict(rates=(3, 2), skip=False, ts_max=1.0, phase_b=0.125, unroll=6, augment=True, existing="b"))
+    if tier == "thorough":
+        out.append(dict(rates=(3, 2), skip=True, ts_max=1.0, phase_b=0.125, unroll=6, augment=True, existing="b"))
+        out.append(dict(rates=(3, 2), skip=True, ts_max=1.0, phase_b=0.125, unroll=6, augment=True))
     return out
 
 
